@@ -6,38 +6,6 @@ reference-free connection lists.
 namespace LunarVerif.C05
 open LunarVerif.FlowGraph LunarVerif.FlowExec
 
-/-! ### a reachable cycle gives paths of every length -/
-
-theorem isPath_append (g : DirGraph) (x : String) (b : List String) :
-    ∀ a : List String, IsPath g (a ++ [x]) → IsPath g (x :: b) → IsPath g (a ++ x :: b)
-  | [], _, hb => hb
-  | [y], ha, hb => by
-    simp only [List.cons_append, List.nil_append, IsPath] at ha ⊢
-    exact ⟨ha.1, hb⟩
-  | y :: z :: a', ha, hb => by
-    simp only [List.cons_append, IsPath] at ha ⊢
-    exact ⟨ha.1, isPath_append g x b (z :: a') ha.2 hb⟩
-
-theorem pump (g : DirGraph) (t x : String) (p q : List String)
-    (hreach : IsPath g (t :: p ++ [x])) (hcyc : IsPath g (x :: q ++ [x])) :
-    ∀ m : Nat, ∃ p', IsPath g (t :: p' ++ [x]) ∧ m ≤ p'.length
-  | 0 => ⟨p, hreach, Nat.zero_le _⟩
-  | m + 1 => by
-    obtain ⟨p', hp', hm⟩ := pump g t x p q hreach hcyc m
-    refine ⟨p' ++ x :: q, ?_, ?_⟩
-    · have := isPath_append g x (q ++ [x]) (t :: p') hp' hcyc
-      simpa using this
-    · simp only [List.length_append, List.length_cons]
-      omega
-
-theorem cycle_unbounded (g : DirGraph) (F : Nat) (t : String) (p q : List String) (x : String)
-    (hreach : IsPath g (t :: p ++ [x])) (hcyc : IsPath g (x :: q ++ [x]))
-    (hb : ∀ p', IsPath g (t :: p') → p'.length < F) : False := by
-  obtain ⟨p', hp', hm⟩ := pump g t x p q hreach hcyc F
-  have := hb (p' ++ [x]) (by simpa using hp')
-  simp only [List.length_append, List.length_cons, List.length_nil] at this
-  omega
-
 /-- `Except` has no `DecidableEq`: decide the verdict through a Boolean -/
 def vOk (d : Dir) (g : DirGraph) : Bool :=
   match validateDirection d g with
